@@ -802,6 +802,25 @@ def case_immut (c, rep):
               (type(o).__name__, type(e).__name__), repr(e), c)
     if (o.raw, str(o), hash(o)) != before:
       _fail(rep, "immut %s changed" % type(o).__name__, "%r" % (before,), c)
+    # running the constructor again on a live value (any accepted input form)
+    # must not re-seat it either; whether it raises is not judged
+    if isinstance(o, A.IPAddr):
+      again = ["9.8.7.6", b"\x09\x08\x07\x06", 0x09080706, A.IPAddr("9.8.7.6")]
+    elif isinstance(o, A.IPAddr6):
+      again = ["fe80::9", bytes(range(1, 17)), A.IPAddr6("fe80::9")]
+    else:
+      again = ["0a:0b:0c:0d:0e:0f", b"\x0a\x0b\x0c\x0d\x0e\x0f",
+               A.EthAddr("0a:0b:0c:0d:0e:0f")]
+    for inp in again:
+      try:
+        o.__init__(inp)
+      except Exception:
+        pass
+      rep.count("constructor_rerun_on_live_value")
+      if (o.raw, str(o), hash(o)) != before:
+        _fail(rep, "immut %s re-seated by a second constructor call" %
+              type(o).__name__, "%r -> %s after __init__(%r)" % (before, o, inp), c)
+        break
     # raw is not an alias that can be mutated
     r = o.raw
     if not isinstance(r, bytes):
